@@ -75,6 +75,9 @@ class AbstractItemEncoder(object):
 
     def encode(self, value, asn1Spec=None, encodeFun=None, **options):
 
+        # concerns this item only, never its components
+        ifNotEmpty = options.pop('ifNotEmpty', False)
+
         if asn1Spec is None:
             tagSet = value.tagSet
         else:
@@ -112,7 +115,7 @@ class AbstractItemEncoder(object):
                         isConstructed and 'constructed ' or '', value, substrate
                     ))
 
-                if not substrate and isConstructed and options.get('ifNotEmpty', False):
+                if not substrate and isConstructed and ifNotEmpty:
                     return substrate
 
                 if not isConstructed:
